@@ -61,6 +61,8 @@ def run(ctx):
             res = sysmon.st.run_special_outputs(sysmon.sysroot(ctx, 'c01'), 'c01d' + os.path.basename(cc), cc)
             if res['requests']: sysmon.feed(ctx, res, findings, f'system special-output scenario {os.path.basename(cc)}')
             else: ctx.notes.append('special-output scenario skipped: ' + str(res.get('skipped')))
+            res = sysmon.st.run_option_order(sysmon.sysroot(ctx, 'c01'), 'c01o' + os.path.basename(cc), cc)
+            sysmon.feed(ctx, res, findings, f'system option-order scenario {os.path.basename(cc)}')
             res = sysmon.st.run_extra_files(sysmon.sysroot(ctx, 'c01'), 'c01x' + os.path.basename(cc), cc)
             if res['requests']: sysmon.feed(ctx, res, findings, f'system list-file scenarios {os.path.basename(cc)}')
             for dm in (True, False):
